@@ -106,7 +106,7 @@ func (c03) Run(c *run.Ctx, phase, idx int) {
 		if c.Thorough {
 			maxAll = 5
 		}
-		if n := len(a.Props); n >= 2 && n <= maxAll && part != "huge" {
+		if n := len(a.Props); n >= 2 && n <= maxAll && part != "huge" && part != "giant" {
 			for _, pm := range allPerms(n) {
 				v := a.Clone()
 				v.Props = applyPerm(a.Props, pm)
@@ -117,7 +117,7 @@ func (c03) Run(c *run.Ctx, phase, idx int) {
 			if c.Thorough {
 				k = 5
 			}
-			if part == "huge" {
+			if part == "huge" || part == "giant" {
 				k = 1
 			}
 			for i := 0; i < k; i++ {
@@ -134,7 +134,7 @@ func (c03) Run(c *run.Ctx, phase, idx int) {
 			}
 		}
 	}
-	if ref.HasProps(t) && part != "huge" {
+	if ref.HasProps(t) && part != "huge" && part != "giant" {
 		v := a.Clone()
 		v.Props = gen.Permute(r, gen.WithExplicitZeros(r, t, a.Props))
 		if a.HasWill() {
